@@ -23,6 +23,8 @@ FAMS = {"power": ([[[None, "watt", 1]], [["milli", "watt", 1]], [["kilo", "watt"
         "charge": ([[[None, "coulomb", 1]], [["milli", "coulomb", 1]]], 1),
         "force": ([[[None, "newton", 1]], [["kilo", "newton", 1]]], 1),
         "area": ([[[None, "meter", 2]], [[None, "meter", 1], [None, "meter", 1]]], 1)}
+# a convertible unit of clearly another size than the family's coherent unit (not a prefix of it)
+ALT = {"power": [[None, "horsepower", 1]], "time": [[None, "minute", 1]], "speed": [[None, "mile", 1], [None, "hour", -1]], "energy": [[None, "calorie", 1]], "force": [[None, "pound-force", 1]]}
 LOGS = [("bel", None, Decimal(10), Decimal(1)), ("decibel", None, Decimal(10), Decimal(1) / 10), ("neper", None, None, Decimal(1)), ("octave", None, Decimal(2), Decimal(1)),
         ("bel", "milli", Decimal(10), Decimal(1) / 1000), ("octave", "centi", Decimal(2), Decimal(1) / 100), ("neper", "deci", None, Decimal(1) / 10),
         (12, None, Decimal(12), Decimal(1)), (3, "deci", Decimal(3), Decimal(1) / 10), ("bel", "kilo", Decimal(10), Decimal(1000))]
@@ -66,6 +68,7 @@ def main():
         lu = {"log": log, "prefix": pre, "ref": ref}
         if rng.random() < 0.6:
             cases.append({"op": "level", "l": {"t": "qty", "m": fl(qm), "u": uq}, "r": lu}); meta.append((fam, k, base, pv, uq, ur))
+            if fam in ALT and ur == units[0]: cases[-1]["alt"] = ALT[fam]          # (the reference in the coherent unit, so that the other unit is of another size)
         else:
             lm = rng.choice([0.0, 1.0, -3.0, 20.0, 0.5, rng.uniform(-200, 200), rng.uniform(-200, 200), -200.0, 200.0, -160.0])
             # keep base**(l*p/k) within float range
@@ -159,6 +162,8 @@ def main():
             if not close(bq, q_in_ref):
                 c.violation("roundtrip-quantity", f"quantity -> level -> quantity gives {float(bq)} for {float(q_in_ref)} (in the reference's unit)", repl)
             # exact == sits on a rounding tie here (the two directions convert different operands): the property says "within rounding", so only the approximate comparison is required
+            if rec.get("neq") and (rec["neq"][0] or rec["neq"][1] or not rec["neq"][2]):
+                c.violation("level-eq-other-quantity", f"a level compares equal to a quantity of the same number in a unit of another size ({cs.get('alt')}): {rec['neq']} (level==q', q'==level, level!=q')", repl)
             if not (rec["eq"][2] and rec["eq"][3]):
                 c.violation("level-eq-quantity", f"a level and the quantity it denotes do not compare equal: {rec['eq']} (level==q, q==level, approx(q)==level, level==approx(q))", repl)
         else:
